@@ -6,6 +6,7 @@ CONSTANTS
   MaxSched = 2
   OutBatch = 2
   MatchRel <- MCMatch
+  RFix = {"ready_unknown", "unsuback_one", "unsub_notifs"}
   CIDs = {"c1", "c2"}
   Topics <- MCTopics
   Filters <- MCFilters
@@ -21,7 +22,7 @@ CONSTANTS
   MaxPub = 3
   MaxSubOps = 2
   MaxCloses = 0
-  EnUnsub = FALSE
+  EnUnsub = TRUE
   EnPing = FALSE
   EnDisconnect = FALSE
   EnStale = FALSE
